@@ -157,7 +157,21 @@ static std::string runSeq(const std::vector<std::string> &t) {
         } else if (f.size() == 2) {
             u128 v;
             if (!parse_u128(f[1], v)) return "bad-op";
-            if (o == "mu" || o == "dv" || o == "lt" || o == "le" || o == "gt" || o == "ge" || o == "eq" || o == "ne") {
+            if (o == "rlt" || o == "rle" || o == "rgt" || o == "rge" || o == "req" || o == "rne") {
+                // the reversed friends: number OP object
+                if ((v >> W) != 0) return "bad-op";
+                const T a = T(v);
+                bool    b;
+                bool    e = false;
+                if (o == "rlt") { b = (a < x); e = (v < sh); }
+                else if (o == "rle") { b = (a <= x); e = (v <= sh); }
+                else if (o == "rgt") { b = (a > x); e = (v > sh); }
+                else if (o == "rge") { b = (a >= x); e = (v >= sh); }
+                else if (o == "req") { b = (a == x); e = (v == sh); }
+                else { b = (a != x); e = (v != sh); }
+                ret = b ? "T" : "F";
+                if (shv) { shret = e ? "T" : "F"; shret_known = true; }
+            } else if (o == "mu" || o == "dv" || o == "lt" || o == "le" || o == "gt" || o == "ge" || o == "eq" || o == "ne") {
                 if ((v >> W) != 0) return "bad-op";
                 const T a = T(v);
                 if (o == "mu") {
